@@ -30,7 +30,7 @@ try:
     r = subprocess.run(["patch", "-p1", "--no-backup-if-mismatch", "-i", os.path.join(d, "patch.diff")], cwd=dst, capture_output=True, text=True)
     res["patch_rc"] = r.returncode
     if r.returncode:
-        print(r.stdout, r.stderr)
+        res["patch_output"] = (r.stdout + r.stderr)[-500:]
     if confirm:
         r = subprocess.run(["/venv/bin/python", os.path.join(d, "demo.py")], env=env, capture_output=True, text=True, cwd=tmp)
         res["demo_patched_rc"] = r.returncode
